@@ -98,12 +98,18 @@ def random_skeleton(rng):
         else:
             n = rng.randint(1, 8)
             ops += [STARTACC(e, 0, 3), WRITE(0, n), ENDACC(0)]; lens[e] = n
+    grower = None  # growing a contiguous element promotes it to 4096-byte linked blocks: at most one such element per skeleton (model disk 8 KiB)
     for _ in range(rng.randint(2, 4)):
         e = rng.choice([0, 1])
         ops.append(STARTACC(e, 0, 7))
         pos = rng.randint(0, lens[e] + (2 if kinds[e] != "put" or True else 0))
-        ops.append(SEEK(0, pos))
         n = rng.randint(1, 6)
+        if kinds[e] != "hl" and pos + n > lens[e]:
+            if grower is None:
+                grower = e
+            elif grower != e:   # in-place overwrite instead
+                pos = rng.randint(0, lens[e] - 1); n = rng.randint(1, lens[e] - pos)
+        ops.append(SEEK(0, pos))
         ops.append(WRITE(0, n))
         lens[e] = max(lens[e], pos + n)
         rp = rng.randint(0, lens[e] - 1)
